@@ -136,11 +136,14 @@ type vc07Template struct {
 }
 
 // vc07MakeTemplate builds the two bbolt files holding the initial sets once; every build copies them.
+// Stores are opened with a one-hour lock-acquire timeout: go-stoabs' default is 3 s of REAL time, and on a starved
+// machine an uncontended lock can take longer, which either fails the transaction or (a race in its
+// lockWithCancel) blocks for ever — observed once with ten of sixteen workers during a machine-wide stall.
 func vc07MakeTemplate(t testing.TB, dir string, u *vc07Universe, init [2][]int) *vc07Template {
 	tpl := &vc07Template{}
 	for n := 0; n < 2; n++ {
 		path := filepath.Join(dir, fmt.Sprintf("tpl_%d_%d.db", atomic.AddInt64(&vc07FileCounter, 1), n))
-		db, err := bbolt.CreateBBoltStore(path, stoabs.WithNoSync())
+		db, err := bbolt.CreateBBoltStore(path, stoabs.WithNoSync(), stoabs.WithLockAcquireTimeout(time.Hour))
 		if err != nil {
 			t.Fatal(err)
 		}
@@ -182,7 +185,7 @@ func vc07Build(t testing.TB, dir string, u *vc07Universe, tpl *vc07Template, lat
 		if err := os.WriteFile(path, tpl.bytes[n], 0o600); err != nil {
 			t.Fatal(err)
 		}
-		db, err := bbolt.CreateBBoltStore(path, stoabs.WithNoSync())
+		db, err := bbolt.CreateBBoltStore(path, stoabs.WithNoSync(), stoabs.WithLockAcquireTimeout(time.Hour))
 		if err != nil {
 			t.Fatal(err)
 		}
